@@ -571,6 +571,12 @@ func FuzzyMatchV2(caseSensitive bool, normalize bool, forward bool, input *util.
 		Hdiag := H[row+f-f0-1-width:][:len(Tsub)]
 		Hleft := H[row+f-f0-1:][:len(Tsub)]
 		Hleft[0] = 0
+		// The backtrace in phase 4 looks ahead at the cells of this row that
+		// precede the first occurrence. Make sure it does not see stale
+		// values left in the slab by the previous calls.
+		for idx := row; idx < row+f-f0; idx++ {
+			C[idx] = 0
+		}
 		for off, char := range Tsub {
 			col := off + f
 			var s1, s2, consecutive int16
